@@ -145,6 +145,39 @@ func classifyLoop(p *Prog, fn *ssa.Function, h *ssa.BasicBlock, body map[*ssa.Ba
 		}
 	}
 	iff, hasIf := h.Instrs[len(h.Instrs)-1].(*ssa.If)
+	// shrinking slice: for len(s) > 0 { ...; s = s[k:] } with k >= 1 on every way back to the header
+	if hasIf {
+		if bo, ok := iff.Cond.(*ssa.BinOp); ok {
+			if ln, ok := bo.X.(*ssa.Call); ok {
+				if bi, isBi := ln.Common().Value.(*ssa.Builtin); isBi && bi.Name() == "len" {
+					if phi, isPhi := ln.Common().Args[0].(*ssa.Phi); isPhi && phi.Block() == h {
+						k, isK := constInt(bo.Y)
+						cont := (bo.Op == token.GTR && isK && k >= 0) || (bo.Op == token.NEQ && isK && k == 0) || (bo.Op == token.GEQ && isK && k >= 1)
+						if cont && body[h.Succs[0]] {
+							shrinks := true
+							for i, e := range phi.Edges {
+								if !body[h.Preds[i]] {
+									continue
+								}
+								sl, isSl := e.(*ssa.Slice)
+								if !isSl || sl.X != ssa.Value(phi) || sl.High != nil {
+									shrinks = false
+									break
+								}
+								if lo, ok := constInt(sl.Low); !ok || lo < 1 {
+									shrinks = false
+									break
+								}
+							}
+							if shrinks {
+								return "shrinking slice", "runs while " + describeValue(p, phi) + " is non-empty and drops at least one leading element per iteration"
+							}
+						}
+					}
+				}
+			}
+		}
+	}
 	// induction variables
 	for _, in := range h.Instrs {
 		phi, ok := in.(*ssa.Phi)
